@@ -7,7 +7,7 @@ use std::collections::BTreeMap;
 
 pub fn monitor() -> Monitor {
   Monitor { id: "C10",
-    rule: "every RING index r of depths <= 8 (quick) / <= 11 (thorough): from_ring(r) in range, to_ring(from_ring(r)) == r (=> bijection on the exhaustive depths), projected centre of NESTED cell from_ring(r) == reference centre of RING cell r (integer-sqrt RING decode), ordering of consecutive indices (latitude non-increasing, longitude increasing within a ring, in [0,2pi)), ring::center == Layer::center; deeper depths up to 29: ring-boundary classes (first/second/quarter/last cells of rings 1..4, nside-2..nside+2, 2nside-1..2nside+1, 3nside-2..3nside+2, 4nside-4..4nside-1 and random rings) and random cells, each together with its successor r+1. Non-trivial = index that is first/last of its ring or on a quarter boundary, or in a polar-cap ring, or in a transition ring (i in {nside, 3nside}) (reference classification).",
+    rule: "every RING index r of depths <= 8 (quick) / <= 11 (thorough); deeper: class-sampled rings (polar, transition, equator, random) and every ring whose index is 2^p - 1 .. 2^p + 2 counted from either pole: from_ring(r) in range, to_ring(from_ring(r)) == r (=> bijection on the exhaustive depths), projected centre of NESTED cell from_ring(r) == reference centre of RING cell r (integer-sqrt RING decode), ordering of consecutive indices (latitude non-increasing, longitude increasing within a ring, in [0,2pi)), ring::center == Layer::center; deeper depths up to 29: ring-boundary classes (first/second/quarter/last cells of rings 1..4, nside-2..nside+2, 2nside-1..2nside+1, 3nside-2..3nside+2, 4nside-4..4nside-1 and random rings) and random cells, each together with its successor r+1. Non-trivial = index that is first/last of its ring or on a quarter boundary, or in a polar-cap ring, or in a transition ring (i in {nside, 3nside}) (reference classification).",
     assumptions: &["reference RING decode uses exact integer arithmetic (u128, integer square root)", "reference cell centres in the projection plane"],
     run, replay }
 }
@@ -42,6 +42,16 @@ fn run(ctx: &mut Ctx, extra: &mut BTreeMap<String, String>) {
           }
         }
         for _ in 0..(n_rings / 2) { let h = rng.below(n); judge_nested_index(c, layer, depth, h); let r = rng.below(n); judge_ring_index(c, layer, depth, r, r + 1 < n); }
+        // rings whose index is next to a power of two (integer-width boundaries of the ring arithmetic), counted from either pole
+        if depth as u64 % shards == k as u64 {
+          for p in 1..32u32 { for off in -1i64..=2 { for &mirror in [false, true].iter() {
+            let i0 = (1i64 << p) + off; if i0 < 1 || i0 as u64 > 4 * ns - 1 { continue; }
+            let i = if mirror { 4 * ns - i0 as u64 } else { i0 as u64 };
+            let (first, cnt) = ring_first(ns, i);
+            for &j in [0, 1, cnt / 4, cnt / 2, cnt - 1, rng.below(cnt)].iter() { let r = first + j.min(cnt - 1); judge_ring_index(c, layer, depth, r, r + 1 < n); if let Ok(h) = catch(|| layer.from_ring(r)) { if h < n { judge_nested_index(c, layer, depth, h); } } }
+            c.hard("ring-index-next-to-a-power-of-two", &[depth as u64, i]);
+          } } }
+        }
       }
     }
   });
